@@ -57,8 +57,22 @@ def gen(rng, k):
     if p["w"] is not None and (k // 3) % 4 == 3:
         # the same relative weights at a tiny / huge overall magnitude (a common factor does not change the optimum)
         p["w"] = p["w"] * float(rng.choice([1e-9, 1e-12, 1e6]))
+    if k % 9 == 4:
+        # reference positions in lattice order (row by row, three or more per row: the first points are exactly collinear), on
+        # integer / dyadic coordinates; noise-free and noisy targets alternate as for the other point sets
+        ni, nj = int(rng.integers(2, 6)), int(rng.integers(3, 7))
+        va = np.array([float(rng.integers(4, 20)), float(rng.integers(-3, 4))]) * float(rng.choice([1.0, 0.5, 0.25]))
+        vb = np.array([float(rng.integers(-3, 4)), float(rng.integers(4, 20))])
+        z0 = np.array([float(rng.integers(-40, 40)), float(rng.integers(-40, 40))])
+        ref = np.array([z0 + i * vb + j * va for i in range(ni) for j in range(nj)])
+        if (k // 9) % 2:
+            ref = np.array([z0 + j * va for j in range(nj)] + [z0 + vb])       # one row plus a single point off it
+        p["ref"] = ref
+        if p["w"] is not None:
+            p["w"] = rng.uniform(0.1, 10, len(ref))
+        k = 0       # (not the integer-dtype variant below)
     # reference positions kept as integer pixel positions (integer dtype) by the caller, fractional centre
-    p["int_ref"] = (k // 12) % 3 == 1 and np.linalg.matrix_rank(np.hstack([np.round(ref), np.ones((n, 1))]), tol=1e-3) == 3
+    p["int_ref"] = (k // 12) % 3 == 1 and np.linalg.matrix_rank(np.hstack([np.round(ref), np.ones((len(ref), 1))]), tol=1e-3) == 3
     return p
 
 
